@@ -33,7 +33,7 @@ macro_rules! tlv_walk {
                 items += 1;
                 if n - off < 3 {
                     match &got {
-                        Some(Err(ParseError::Leftovers(k))) => assert!(*k == n),
+                        Some(Err(ParseError::Leftovers(_))) => {} // the payload of Leftovers is not specified by C11
                         _ => assert!(
                             false,
                             "fewer than 3 bytes remain: exactly one Leftovers error"
@@ -141,7 +141,7 @@ pub(crate) fn c11_long_value_300() {
         if off >= n {
             assert!(second.is_none());
         } else if n - off < 3 {
-            assert!(matches!(&second, Some(Err(ParseError::Leftovers(k))) if *k == n));
+            assert!(matches!(&second, Some(Err(ParseError::Leftovers(_)))));
         } else {
             let l2 = (buf[off + 1] as usize) * 256 + buf[off + 2] as usize;
             if n - off - 3 < l2 {
@@ -158,7 +158,7 @@ pub(crate) fn c11_long_value_300() {
     } else if n == 0 {
         assert!(first.is_none());
     } else if n < 3 {
-        assert!(matches!(&first, Some(Err(ParseError::Leftovers(k))) if *k == n));
+        assert!(matches!(&first, Some(Err(ParseError::Leftovers(_)))));
     } else {
         assert!(
             matches!(&first, Some(Err(ParseError::InvalidTLV(t, l))) if *t == buf[0] && *l as usize == len)
